@@ -21,6 +21,27 @@ def run(ctx):
     sims, _ = ctx.tlc_emit("MeekLite", "MeekLite_sim.cfg", tag="SIM", mode="simulate", simulate="num=%d" % (150 if quick else 6000), depth=40,
                            label="simulation behaviours (environment scripts)", timeout=600)
     seen, scen = set(), []
+    # growth beyond the premise "while the server answers 200": a request answered 503 / 404 / 500 is posted again after
+    # retryDelay (30 s of real time each - these scenarios come first so that every one gets a shard of its own); the bodies
+    # the server ACCEPTED are still the written stream, left-overs survive, the refusal's own body never reaches Read
+    P = 30500
+    refuse = [
+        [{"a": "write", "n": 1000}, {"a": "refuse", "n": 503}, {"a": "pause", "n": P}, {"a": "respond", "n": 10}, {"a": "read", "n": 0},
+         {"a": "write", "n": 5}, {"a": "respond", "n": 0}],
+        [{"a": "write", "n": 65537}, {"a": "refuse", "n": 404}, {"a": "write", "n": 3}, {"a": "pause", "n": P}, {"a": "respond", "n": 0}, {"a": "respond", "n": 7},
+         {"a": "read", "n": 0}],
+    ]
+    if not quick:
+        refuse += [
+            [{"a": "refuse", "n": 503}, {"a": "write", "n": 100}, {"a": "pause", "n": P}, {"a": "respond", "n": 10}, {"a": "respond", "n": 0}, {"a": "read", "n": 0}],
+            [{"a": "write", "n": 10}, {"a": "refuse", "n": 503}, {"a": "refuse", "n": 500}, {"a": "pause", "n": 2 * P}, {"a": "respond", "n": 5}, {"a": "read", "n": 0}],
+            [{"a": "write", "n": 200000}, {"a": "respond", "n": 1}, {"a": "refuse", "n": 502}, {"a": "pause", "n": P}, {"a": "respond", "n": 65536},
+             {"a": "read", "n": 0}, {"a": "read", "n": 0}],
+            # the worker gives up after maxRetries = 10 refusals of one request (300 s): the connection closes itself
+            [{"a": "write", "n": 10}] + [{"a": "refuse", "n": 503}] * 10 + [{"a": "pause", "n": 10 * 30000 + 1500}],
+        ]
+    for i, st in enumerate(refuse):
+        scen.append({"id": "refuse%d" % i, "steps": st, "front": i % 2 == 1, "src": "refusal"})
     for _n, hist in sims:
         key = json.dumps(hist)
         if key in seen or len(hist) < 3:
@@ -38,6 +59,8 @@ def run(ctx):
         scen.append({"id": "sim%d" % i, "steps": steps, "front": i % 5 == 0, "src": "tlc-simulate"})
     if len(scen) < 20:
         raise Inconclusive("only %d simulation scenarios" % len(scen))
+    ctx.assumptions.append("refusal scenarios (non-200 answers, 30 s real time per retry) are growth beyond the statement's premise: "
+                           "%d scenarios" % len(refuse))
     rng = random.Random(ctx.seed * 22695477 + 16)
     for i in range(40 if quick else 1500):
         steps = []
@@ -88,7 +111,7 @@ def run(ctx):
         return rej[0] if rej else None
     ctx.settle(rejected, reexec, lambda tr: "meek_lite behaviour rejected at event %s: %s (scenario %s)" % (
         tr["reject"]["at_event_index"], json.dumps(tr["reject"]["event"])[:300], json.dumps(tr["scenario"])[:500]), attempts=3)
-    ctx.assumptions += ["the server always answers 200; response bodies are at most 65536 bytes (what a meek server sends)",
+    ctx.assumptions += ["outside the refusal scenarios the server always answers 200; response bodies are at most 65536 bytes (what a meek server sends)",
                         "'polling stops' = the connection's ioWorker goroutine has ended (runtime.Stack) once held responses are released and the "
                         "read side is drained; requests issued between Close and the worker's exit are allowed"]
     return ctx.finish("model_checking", extra_cov={"events_validated": nev, "scenarios": len(scen), "from_tlc_simulation": len(kept),
